@@ -118,7 +118,7 @@ impl Container {
         let directory_pack = Arc::new(DirectoryPack::new(
             locator
                 .locate(pack_info.uuid, &pack_info.pack_location)?
-                .unwrap(),
+                .ok_or_else(|| -> Error { format_error!("Impossible to locate the directory pack") })?,
         )?);
         let value_storage = directory_pack.create_value_storage();
         let entry_storage = directory_pack.create_entry_storage();
